@@ -439,6 +439,8 @@ def gen_store_case(rng, idx, tier):
         ops.append([1 if rng.random() < 0.2 else 0, rng.choice(order)])
     if any(w == 1 for w, _ in ops):
         g.flags.add('two_storages')
+    if rng.random() < 0.25:
+        g.flags.add('query_first')
     return {'kind': 'store', 'nodes': g.nodes, 'roots': roots, 'ops': ops, 'backend': BACKENDS[idx % 3],
             'flags': sorted(g.flags)}
 
@@ -763,6 +765,11 @@ def gen_hist_case(rng, idx, tier, family=None):
                 hops = [['store', 0], ['del', ident(r)], [rng.choice(['store', 'over']), 1]]
             elif fam == 'over_other':
                 hops = [['store', 0], ['over', 1]] + ([['over', 0]] if rng.random() < 0.3 else [])
+                if rng.random() < 0.6:      # the replacement is then used below a new parent: it must be the cached object now
+                    which = 0 if len(hops) == 3 else 1
+                    par = g.add(dict(k='Sequence', id=g.fresh_id(), subs=[roots[which], roots[which]]), pool, False, None)
+                    roots.append(par)
+                    hops.append([rng.choice(['store', 'over']), 2])
             else:
                 hops = [['store', 0], ['store', 1]]
         elif fam == 'child_first_del':
@@ -822,6 +829,8 @@ def fixed_hist_cases(tier):
         ('link_plain_over', [absr, impl], [0], [['store', 0], ['link', 0, 1, False], ['over', 0]]),
         ('link_unlink', [absr, impl], [0], [['store', 0], ['link', 0, 1, True], ['over', 0], ['unlink', 0], ['over', 0]]),
         ('over_twice', [ramp, rep, scan], [2], [['store', 0], ['over', 0], ['over', 0]]),
+        ('over_other_then_parent', [ramp, dict(impl, id='ramp'), dict(k='Sequence', id='par', subs=[1, 1])], [0, 1, 2],
+         [['store', 0], ['over', 1], ['store', 2]]),
         ('del_absent', [ramp, rep, scan], [2], [['del', 'scan'], ['store', 0], ['del', 'nope'], ['del', 'ramp'], ['del', 'ramp']]),
     ]
     for name, nodes, roots, hops in specs:
